@@ -1082,3 +1082,42 @@ func ControlConds(v ssa.Value) []ssa.Value {
 	}
 	return out
 }
+
+// MustPassAfterSkipping is MustPassAfter where CFG edges for which skip
+// returns true are treated as infeasible.
+func MustPassAfterSkipping(start ssa.Instruction, pred func(ssa.Instruction) bool, isExit func(ssa.Instruction) bool, skip func(from *ssa.BasicBlock, succIdx int) bool) (bool, ssa.Instruction) {
+	type pos struct {
+		b *ssa.BasicBlock
+		i int
+	}
+	seen := map[*ssa.BasicBlock]bool{}
+	work := []pos{{start.Block(), instrIndex(start) + 1}}
+	for len(work) > 0 {
+		p := work[len(work)-1]
+		work = work[:len(work)-1]
+		blocked := false
+		for i := p.i; i < len(p.b.Instrs); i++ {
+			in := p.b.Instrs[i]
+			if pred(in) {
+				blocked = true
+				break
+			}
+			if isExit(in) {
+				return false, in
+			}
+		}
+		if blocked {
+			continue
+		}
+		for si, s := range p.b.Succs {
+			if skip != nil && skip(p.b, si) {
+				continue
+			}
+			if !seen[s] {
+				seen[s] = true
+				work = append(work, pos{s, 0})
+			}
+		}
+	}
+	return true, nil
+}
